@@ -26,6 +26,9 @@
 
   The per-parameter check itself is abstract: a predicate `ok : Name → Val → Bool`
   (C01/C02 are about what it computes). Values are object identities (`Nat` tokens).
+  Not modelled: bound methods (`is_omit_boundmethod_arg_first`), ignorable / `NoReturn`
+  hints, coroutines and generators (C08), the wrapper's hidden `__beartype_*` keyword
+  parameters being passed by the caller, the sentinel object being passed as a value.
 
   Executable, core Lean only (no Mathlib): also used by the line-protocol driver.
 -/
@@ -195,7 +198,8 @@ def factsOf (s : Sig) : CodeFacts where
 def pySlice {α} (l : List α) (a b : Nat) : List α := (l.drop a).take (b - a)
 
 /-- one `if n: for arg_name in args_name[first:first+n]: yield (kind, arg_name, …); first += n`
-    block of `iter_func_args` -/
+    block of `iter_func_args` (the first block is written `args_name[first:n]` with `first = 0` in the source,
+    the same slice) -/
 def seg (k : Kind) (names : List Name) (first n : Nat) : List (Kind × Name) × Nat :=
   if n ≠ 0 then ((pySlice names first (first + n)).map (fun a => (k, a)), first + n) else ([], first)
 
